@@ -79,7 +79,7 @@ def oracle(w, final=False):
             continue          # expired before the new connection
         mine = by_conn.get(cid, [])
         if mine:
-            if mine[0][2] != pid_last:
+            if mine[0][2] != pid_last and mine[0][2] not in _stalled_pids(w, prev[-1]):
                 return {"clause": "resent-first-on-next-connection", "signature": "retry-not-first",
                         "message": f"call #{c['idx']} failed on connection {prev[-1]}; first frame on connection {cid} "
                                    f"is packet {mine[0][2]}, not the retried command"}
@@ -88,6 +88,27 @@ def oracle(w, final=False):
                     "message": f"call #{c['idx']} (policy {c['policy']}) failed once on connection {prev[-1]} and was never "
                                f"re-sent on connection {cid} opened at {opened[cid]} (expiry {c['t'] + c['life']})"}
     return None
+
+
+def _stalled_pids(w, cid):
+    """Packet ids whose frames went into the send buffer of connection ``cid`` while it was stalled
+    and that were still there when it died: their senders learn of the failure too, so any of them
+    may legitimately be the first one re-sent."""
+    hl = header_len(w.gen)
+    pid_off = 4 if w.gen == 4 else 16
+    stalled = False
+    out = set()
+    for e in w.net.log:
+        if e[1] in ("abort", "close", "lost") and e[2] == cid:
+            break
+        if e[1] == "pause" and e[2] == cid:
+            stalled = True
+        elif e[1] == "resume" and e[2] == cid:
+            stalled = False
+            out.clear()
+        elif stalled and e[1] == "write" and e[2] == cid and len(e[3]) == hl and e[3][:2] == b"\x55\x55":
+            out.add(e[3][pid_off])
+    return out
 
 
 def _later_chunk_failed(w, cid, pid):
@@ -113,6 +134,7 @@ class Scenario(sc.SockWorld):
         self.max_fault = params.get("max_fault", 4)
         self.nfault = 0
         self.nadv = 0
+        self.nstall = 0
         self.policies = params.get("policies", ["I", "N", "C"])
 
     def kind(self, a):
@@ -137,11 +159,18 @@ class Scenario(sc.SockWorld):
             acts.append(("tick",))
         if self.net.pending:
             acts.append(("accept",))
+            if self.p.get("stall") and self.nstall < 1:
+                acts.append(("accept-stalled",))     # zero window from the start: drain() suspends
             if self.nfault < self.max_fault:
                 acts.append(("refuse",))
                 # connection accepted, but the k-th write on it fails (fault armed at open time)
                 acts.append(("accept_failing", 0))
         live = self.net.live()
+        if live and self.p.get("stall"):
+            if live[-1].paused:
+                acts.append(("resume",))
+            elif self.nstall < 1:
+                acts.append(("stall",))
         if live and self.nfault < self.max_fault:
             if live[-1].fail_after is None:
                 for k in self.p.get("fail_chunks", (0, 1, 2)):
@@ -176,6 +205,15 @@ class Scenario(sc.SockWorld):
             L.advance_to(a[1] if nd is None else min(a[1], nd))
         elif op == "accept":
             self.net.resolve(True)
+        elif op == "accept-stalled":
+            self.nstall += 1
+            self.net.pause_next = True
+            self.net.resolve(True)
+        elif op == "stall":
+            self.nstall += 1
+            self.net.live()[-1].pause()
+        elif op == "resume":
+            self.net.live()[-1].resume()
         elif op == "accept_failing":
             self.nfault += 1
 
@@ -209,13 +247,16 @@ class Scenario(sc.SockWorld):
         self.net.auto = "accept"
         for t in self.net.conns:
             t.fail_after = None
+            if t.paused:
+                t.resume()
+        self.net.pause_next = False
         self.net.resolve_all(True)
         # the oracle is a function of the cumulative log: judging once at the end sees everything
         self.loop.run_until(self.loop.time() + 35.0)
         return oracle(self, final=True)
 
     def fp_extra(self):
-        return super().fp_extra() + (self.nfault, self.nadv)
+        return super().fp_extra() + (self.nfault, self.nadv, self.nstall, self.net.pause_next)
 
 
 def run(tier, seed, part=None):
@@ -226,16 +267,18 @@ def run(tier, seed, part=None):
                        "after the transport was already lost do not",
                        "socket part only in this check; the per-command policy choice of the API objects is decided by C02-API part"]
     if tier == "quick":
-        plans = [({"max_send": 2, "max_fault": 3, "max_adv": 1}, 6, 0), ({"max_send": 2, "max_fault": 2, "max_adv": 1, "fail_chunks": [0, 2]}, 5, 1)]
+        plans = [({"max_send": 2, "max_fault": 3, "max_adv": 1}, 6, 0), ({"max_send": 2, "max_fault": 2, "max_adv": 1, "fail_chunks": [0, 2]}, 5, 1),
+                 ({"max_send": 2, "max_fault": 1, "max_adv": 1, "fail_chunks": [0], "stall": True}, 6, 0)]
         cap = 50
     else:
-        plans = [({"max_send": 3, "max_fault": 6, "max_adv": 2}, 10, 1), ({"max_send": 2, "max_fault": 4, "max_adv": 2}, 8, 2)]
+        plans = [({"max_send": 3, "max_fault": 6, "max_adv": 2}, 10, 1), ({"max_send": 2, "max_fault": 4, "max_adv": 2}, 8, 2),
+                 ({"max_send": 3, "max_fault": 2, "max_adv": 2, "stall": True}, 9, 1)]
         cap = 900
     for gen in (4, 5):
         for extra, depth, dev in plans:
             params = dict(gen=gen, macro=(dev == 0), **extra)
             res = explorer.explore(SPEC, params, depth, dev, time_cap=cap, seed=seed, label=f"at{gen}/{extra}/d{depth}/v{dev}")
-            chk.add_explorer(f"at{gen}/socket", SPEC, params, res, {"depth": depth, "deviations": dev, **extra})
+            chk.add_explorer(f"at{gen}/socket" + ("/stall" if extra.get("stall") else ""), SPEC, params, res, {"depth": depth, "deviations": dev, **extra})
     chk.add_audit(SPEC, {"gen": 4, "max_send": 2, "max_fault": 3, "max_adv": 1}, 5, 1, limit=4000 if tier == "thorough" else 600)
     from . import c02api
     c02api.run_part(chk, tier)
